@@ -187,6 +187,10 @@ func (a *An) closedTables(prop string) {
 		}
 		nf++
 		frozen, known := frozenWriters[key]
+		if !known && len(cur[key]) == 0 {
+			R.Ok("W.state", "field|"+key, "a field that is not in the frozen table and that nothing writes", "")
+			continue
+		}
 		if !known {
 			R.Viol("W.state", "field|"+key, "every field of the session state has a reviewed set of writers", "", "the field "+key+" is not in the frozen table: a new piece of session state (regenerate tables_gen.go after review)")
 			continue
